@@ -13,14 +13,20 @@ import (
 	"context"
 	"fmt"
 	"os"
+	"strings"
+	"sync"
 	"testing"
 	"time"
 
 	"verifharness/locklog"
 	"verifharness/vh"
 
+	"github.com/alicebob/miniredis/v2"
+	"github.com/projecteru2/core/cluster"
+	"github.com/projecteru2/core/cluster/calcium"
 	"github.com/projecteru2/core/lock"
 	"github.com/projecteru2/core/lock/etcdlock"
+	"github.com/projecteru2/core/types"
 )
 
 const (
@@ -39,6 +45,16 @@ type plan struct {
 	SleepMs   int  `json:"sleep_ms"`
 	HolderTry bool `json:"holder_trylock"` // contender 0 acquires with TryLock (uncontended) instead of Lock
 	Partition bool `json:"partition,omitempty"`
+	// Calcium: cluster level — the critical section of the real
+	// Calcium.withNodePodLocked (cluster/calcium/lock.go) is the contender
+	Calcium bool `json:"via_calcium,omitempty"`
+}
+
+func (p plan) via() string {
+	if p.Calcium {
+		return "calcium"
+	}
+	return "store"
 }
 
 func (p plan) holderOp() string {
@@ -112,6 +128,7 @@ func scenario(b backend, p plan, res *result) {
 	ctxA, err, panicked := locklog.Acquire(ctx, locks[0], p.holderOp())
 	if err != nil || panicked {
 		L.Fail(0, locklog.ClassifyFail(p.holderOp(), err, panicked))
+		note("acquire 0: %v", err)
 		for _, l := range locks {
 			_ = locklog.Unlock(ctx, l)
 		}
@@ -185,11 +202,140 @@ func scenario(b backend, p plan, res *result) {
 	}
 }
 
+// calciumScenario: a single contender whose critical section is the function
+// handed to the real Calcium.withNodePodLocked (through the verif hook): it must
+// run under the context returned by the lock.  ECall is logged before the call,
+// EEnter inside the critical section, ECtx/EEXit when the driver says so, EURet
+// after withNodePodLocked returned (it unlocks itself).  lose makes the holder
+// lose the pod lock behind its back; d is the ELose argument.
+func calciumScenario(c *calcium.Calcium, node string, p plan, d int64, lose func(context.Context) error, obs time.Duration, res *result) {
+	ctx, cancel := context.WithTimeout(context.Background(), 30*time.Second)
+	defer cancel()
+	L := locklog.NewLog()
+	defer func() { res.evs = L.Events() }()
+	note := func(f string, a ...any) { res.notes = append(res.notes, fmt.Sprintf(f, a...)) }
+
+	entered := make(chan struct{})
+	inspect := make(chan time.Duration, 1)
+	done := make(chan error, 1)
+	L.Call(0, locklog.OpLock)
+	go func() {
+		var err error
+		defer func() {
+			if pv := recover(); pv != nil {
+				err = fmt.Errorf("panic: %v", pv)
+			}
+			done <- err
+		}()
+		err = c.VerifFWithNodePodLocked(ctx, node, func(fctx context.Context, _ *types.Node) error {
+			L.Enter(0)
+			close(entered)
+			w := <-inspect
+			L.Ctx(0, locklog.CtxState(fctx, w))
+			L.Exit(0)
+			return nil
+		})
+	}()
+	select {
+	case <-entered:
+	case err := <-done:
+		// never entered: the lock (or the node lookup) failed
+		L.Fail(0, locklog.ClassifyFail(locklog.OpLock, err, err != nil && strings.HasPrefix(err.Error(), "panic: ")))
+		note("withNodePodLocked: %v", err)
+		return
+	case <-time.After(10 * time.Second):
+		note("withNodePodLocked did not enter")
+		return
+	}
+	time.Sleep(time.Duration(p.SleepMs) * time.Millisecond)
+	if p.Lose {
+		L.Lose(0, d)
+		if err := lose(ctx); err != nil {
+			note("lose: %v", err)
+		}
+		L.Lost(0)
+		inspect <- obs
+	} else {
+		time.Sleep(50 * time.Millisecond)
+		inspect <- 0
+	}
+	select {
+	case err := <-done:
+		if err != nil {
+			note("withNodePodLocked: %v", err)
+		}
+		L.URet(0)
+	case <-time.After(15 * time.Second):
+		note("withNodePodLocked did not return")
+	}
+}
+
+func runEtcdCalcium(env *locklog.Etcd, key string, p plan) (res result) {
+	pod, node := "vp-"+key, "vn-"+key
+	// the pod and its node first (AddNode takes locks of its own), then the watch
+	if err := locklog.AddPodNode(env.C, pod, node); err != nil {
+		return result{evs: locklog.Unacceptable(), infra: "setup: " + err.Error()}
+	}
+	t0 := time.Now() // the heartbeat window includes the creation of the lock objects (their leases)
+	run, err := env.NewRun(fmt.Sprintf(cluster.PodLock, pod), nil)
+	if err != nil {
+		if run != nil {
+			run.Close()
+		}
+		return result{evs: locklog.Unacceptable(), infra: "setup: " + err.Error()}
+	}
+	run.Single = true
+	lose := func(ctx context.Context) error {
+		lease, err := env.LeaseUnder(ctx, run.Pfx())
+		if err != nil {
+			return err
+		}
+		_, err = env.Cli.Revoke(ctx, lease)
+		return err
+	}
+	calciumScenario(env.C, node, p, 0, lose, obsEtcdMs*time.Millisecond, &res)
+	res.hbMs = env.MaxLatency(t0, time.Now()).Milliseconds()
+	muts, err := run.Finish()
+	if err != nil {
+		res.infra = "watch: " + err.Error() // empty muts: the log cannot be accepted
+		return res
+	}
+	res.muts = muts
+	return res
+}
+
+// redisCal: one Calcium on one miniredis for all cluster-level redis runs; they
+// are serialised because FastForward moves the clock of the whole miniredis.
+type redisCal struct {
+	mu sync.Mutex
+	c  *calcium.Calcium
+	s  *miniredis.Miniredis
+}
+
+func (rc *redisCal) run(key string, p plan) (res result) {
+	rc.mu.Lock()
+	defer rc.mu.Unlock()
+	pod, node := "vp-"+key, "vn-"+key
+	if err := locklog.AddPodNode(rc.c, pod, node); err != nil {
+		return result{evs: locklog.Unacceptable(), infra: "setup: " + err.Error()}
+	}
+	lose := func(context.Context) error {
+		rc.s.FastForward((ttlMs + 1) * time.Millisecond)
+		return nil
+	}
+	calciumScenario(rc.c, node, p, ttlMs+1, lose, obsRedisMs*time.Millisecond, &res)
+	return res
+}
+
 func runEtcd(env *locklog.Etcd, key string, p plan) (res result) {
+	if p.Calcium {
+		return runEtcdCalcium(env, key, p)
+	}
 	ttls := make([]time.Duration, p.N)
 	for i := range ttls {
 		ttls[i] = ttlMs * time.Millisecond
 	}
+	t0 := time.Now() // the heartbeat window includes the creation of the lock objects (their leases)
 	run, err := env.NewRun(key, ttls)
 	if err != nil {
 		if run != nil {
@@ -200,7 +346,6 @@ func runEtcd(env *locklog.Etcd, key string, p plan) (res result) {
 		}
 		return result{evs: locklog.Unacceptable(), infra: "setup: " + err.Error()}
 	}
-	t0 := time.Now()
 	scenario(etcdB{run}, p, &res)
 	res.hbMs = env.MaxLatency(t0, time.Now()).Milliseconds()
 	muts, err := run.Finish()
@@ -315,6 +460,11 @@ func stream(t *testing.T, bk string, exec func(k int, p plan) result, part *lock
 	for k := 0; k < n; k++ {
 		plans = append(plans, plan{N: 2 + r.Rng.Intn(2), Lose: r.Rng.Intn(10) < 7, SleepMs: 30 + r.Rng.Intn(71), HolderTry: r.Rng.Intn(2) == 0})
 	}
+	// cluster-level runs (both backends): two lose runs, one no-loss run, then random
+	for k, nc := 0, r.N(3, 20); k < nc; k++ {
+		lose := k < 2 || (k >= 3 && r.Rng.Intn(10) < 7)
+		plans = append(plans, plan{N: 1, Lose: lose, SleepMs: 30 + r.Rng.Intn(71), Calcium: true})
+	}
 	nPlain := len(plans)
 	if part != nil {
 		for k, np := 0, r.N(2, 10); k < np; k++ {
@@ -396,12 +546,13 @@ func stream(t *testing.T, bk string, exec func(k int, p plan) result, part *lock
 		r.Count(fmt.Sprintf("n=%d", p.N))
 		r.Count("fault=" + fault)
 		r.Count("holder_op=" + p.holderOp())
+		r.Count("via=" + p.via())
 		for _, e := range res.evs {
 			if e.Kind == "ECtx" {
 				r.Count(fmt.Sprintf("ctx[%s,%s]=%s", fault, map[bool]string{true: "holder", false: "successor"}[e.I == 0], e.Arg))
 			}
 		}
-		r.Add(term, desc, map[string]any{"backend": bk, "fault": fault, "holder_op": p.holderOp()}, p.Lose)
+		r.Add(term, desc, map[string]any{"backend": bk, "fault": fault, "holder_op": p.holderOp(), "via": p.via()}, p.Lose)
 	}
 	if dropped*2 > len(plans) {
 		t.Fatalf("more than half of the etcd runs were dropped because the embedded cluster stalled (%d of %d)", dropped, len(plans))
@@ -417,6 +568,10 @@ func stream(t *testing.T, bk string, exec func(k int, p plan) result, part *lock
 		" etcd partition runs (2 quick / 10 thorough, sequential, on a second integration cluster behind a bridge, lock object from etcdlock.New," +
 		" exempt from the stall rule): a single holder (Lock / TryLock), then all client-server traffic is black-holed, the holder's context" +
 		" is observed for at most 8000 ms, the partition is healed, Unlock; the mutation history is read back by a watch from the start revision;" +
+		" cluster-level runs (tag via=calcium; 3 quick / 20 thorough per backend, the first two lose runs, the third a no-loss run, then ~70% lose):" +
+		" a single contender whose critical section is the function handed to the real Calcium.withNodePodLocked (verif hook; a pod with one mock-engine node" +
+		" per run, LockTimeout 2 s); the context handed to the critical section is the one observed; the loss is injected as above" +
+		" (etcd: the lease of the key found under the pod-lock prefix is revoked; redis: FastForward, runs serialised on one miniredis);" +
 		" non-trivial = the holder loses its lock")
 }
 
@@ -428,6 +583,14 @@ func TestC19(t *testing.T) {
 	if err != nil {
 		t.Fatalf("embedded etcd: %v", err)
 	}
+	// a real Calcium per backend for the cluster-level runs
+	if env.C, _, err = locklog.NewCalcium(t, "etcd", ttlMs*time.Millisecond); err != nil {
+		t.Fatalf("calcium/etcd: %v", err)
+	}
+	rc := &redisCal{}
+	if rc.c, rc.s, err = locklog.NewCalcium(t, "redis", ttlMs*time.Millisecond); err != nil {
+		t.Fatalf("calcium/redis: %v", err)
+	}
 	// second cluster, behind a bridge, for the partition runs (NewEtcd already
 	// put the test into etcd's integration test context)
 	part, err := locklog.NewBridged(t)
@@ -435,5 +598,10 @@ func TestC19(t *testing.T) {
 		t.Fatalf("bridged etcd: %v", err)
 	}
 	stream(t, "etcd", func(k int, p plan) result { return runEtcdRetry(env, k, p) }, part)
-	stream(t, "redis", func(k int, p plan) result { return runRedis(fmt.Sprintf("k%d", k), p) }, nil)
+	stream(t, "redis", func(k int, p plan) result {
+		if p.Calcium {
+			return rc.run(fmt.Sprintf("k%d", k), p)
+		}
+		return runRedis(fmt.Sprintf("k%d", k), p)
+	}, nil)
 }
